@@ -61,10 +61,11 @@ IsTestsDir(T, d, rootIdx) ==
   /\ HasInit(T, d)
 
 FilesFound(T, d, rootIdx) ==
-  ByRank(T, {f \in Kids(T, d, "file") :
-               /\ Candidate(T, f)
-               /\ \/ NF(T, f).stemT
-                  \/ (IsTestsDir(T, d, rootIdx) /\ NF(T, f).stemF)})
+  LET td == IsTestsDir(T, d, rootIdx)
+  IN ByRank(T, {f \in Kids(T, d, "file") :
+                  /\ Candidate(T, f)
+                  /\ \/ NF(T, f).stemT
+                     \/ (td /\ NF(T, f).stemF)})
 
 RECURSIVE Walk(_, _, _)
 Walk(T, d, rootIdx) ==
@@ -79,14 +80,19 @@ Dedup(s, k, seen) == IF k > Len(s) THEN <<>>
 (* find_test_files: every search root walked in order, de-duplicated by path *)
 (* (the path alone: a file reached through a plain search path and through a *)
 (* --package-path entry is still one file)                                   *)
-Walks(T) == [i \in 1..Len(T.walk) |-> Walk(T, T.walk[i], i)]
-Found(T) == Dedup(FlattenSeq(Walks(T)), 1, {})
+(* W = Walks(T) is handed down so that it is evaluated once per tree (built   *)
+(* by concatenation: TLC keeps [i \in S |-> e] unevaluated and would walk     *)
+(* again at every W[i])                                                       *)
+RECURSIVE WalksFrom(_, _)
+WalksFrom(T, i) == IF i > Len(T.walk) THEN <<>> ELSE <<Walk(T, T.walk[i], i)>> \o WalksFrom(T, i + 1)
+Walks(T) == WalksFrom(T, 1)
+FoundIn(W) == Dedup(FlattenSeq(W), 1, {})
+Found(T) == FoundIn(Walks(T))
 (* the walk that yielded the file first decides its package ("" for --path /  *)
 (* --test-path entries, the given name for --package-path entries)            *)
-FoundVia(T, f) == LET W == Walks(T)
-                      S == {i \in 1..Len(W) : \E k \in 1..Len(W[i]) : W[i][k] = f}
+FoundVia(W, f) == LET S == {i \in 1..Len(W) : \E k \in 1..Len(W[i]) : W[i][k] = f}
                   IN CHOOSE i \in S : \A j \in S : i <= j
-PkgOf(T, f) == T.walkPkg[FoundVia(T, f)]
+PkgOf(T, W, f) == T.walkPkg[FoundVia(W, f)]
 
 (* find_suites: module name by the longest search-root prefix (an            *)
 (* environment fact gives, per file and root, whether --module accepts the   *)
@@ -95,8 +101,8 @@ RECURSIVE Depth(_, _)
 Depth(T, x) == IF x = "" THEN 0 ELSE 1 + Depth(T, E(T, x).parent)
 RECURSIVE Under(_, _, _)
 Under(T, x, r) == IF x = r THEN TRUE ELSE IF x = "" THEN FALSE ELSE Under(T, E(T, x).parent, r)
-NamingRoot(T, f) ==
-  LET pk == PkgOf(T, f)
+NamingRoot(T, W, f) ==
+  LET pk == PkgOf(T, W, f)
       cands == {i \in 1..Len(T.roots) : Under(T, E(T, f).parent, T.roots[i]) /\ T.rootPkg[i] = pk}
   IN CHOOSE i \in cands : \A j \in cands : Depth(T, T.roots[j]) <= Depth(T, T.roots[i])
 (* T.mpats = the --module list (signs), T.mmatch[f][r] = which patterns are    *)
@@ -106,15 +112,15 @@ AcceptedAs(T, f, r) == Len(T.mpats) = 0 \/ Accept(T.mpats, T.mmatch[f][r])
 (* above it.  A file whose longest-prefix name is accepted must be imported; *)
 (* a file none of whose names is accepted must not be (the statement does    *)
 (* not say which name counts, so the zone in between is a don't-care)        *)
-Accepted(T, f) == AcceptedAs(T, f, T.roots[NamingRoot(T, f)])
-AcceptedAny(T, f) == LET pk == PkgOf(T, f)
-                     IN \E i \in 1..Len(T.roots) :
-                        /\ Under(T, E(T, f).parent, T.roots[i]) /\ T.rootPkg[i] = pk
-                        /\ AcceptedAs(T, f, T.roots[i])
+Accepted(T, W, f) == AcceptedAs(T, f, T.roots[NamingRoot(T, W, f)])
+AcceptedAny(T, W, f) == LET pk == PkgOf(T, W, f)
+                        IN \E i \in 1..Len(T.roots) :
+                           /\ Under(T, E(T, f).parent, T.roots[i]) /\ T.rootPkg[i] = pk
+                           /\ AcceptedAs(T, f, T.roots[i])
 (* I-spec: find_suites tries the prefixes longest first and imports the file *)
 (* under the first name the --module filter accepts                          *)
-Imported(T) == SelectSeq(Found(T), LAMBDA f : AcceptedAny(T, f))
-MustImport(T) == SelectSeq(Found(T), LAMBDA f : Accepted(T, f))
+Imported(T) == LET W == Walks(T) IN SelectSeq(FoundIn(W), LAMBDA f : AcceptedAny(T, W, f))
+MustImport(T) == LET W == Walks(T) IN SelectSeq(FoundIn(W), LAMBDA f : Accepted(T, W, f))
 
 (* sanity properties of the definition itself (checked by TLC on a family)  *)
 NoDup(s) == \A a, b \in 1..Len(s) : a # b => s[a] # s[b]
